@@ -856,6 +856,11 @@ def explain_description(
                     if not check_all_conditions(parsed, amount, txn_date):
                         continue
 
+            if not category:
+                # A row without a category only adds tags; the first matching row WITH a
+                # category decides merchant, category and subcategory (see normalize_merchant)
+                continue
+
             result['matched_rule'] = {
                 'pattern': pattern,
                 'source': source,
